@@ -75,9 +75,13 @@ pub fn pythonic_index_isize<T>(xs: &[T], n: isize) -> NRes<usize> {
         return Ok(n as usize);
     }
 
-    let i2 = (n + (xs.len() as isize)) as usize;
-    if i2 < xs.len() {
-        return Ok(i2);
+    // only a negative index counts from the end; for n >= len the sum could overflow isize
+    // (and can never be a valid position)
+    if n < 0 {
+        let i2 = (n + (xs.len() as isize)) as usize;
+        if i2 < xs.len() {
+            return Ok(i2);
+        }
     }
 
     Err(NErr::index_error(format!(
